@@ -13,6 +13,7 @@ mod rx_prefix;
 mod registry;
 mod rx_dangling;
 mod rx_content;
+mod rx_derive;
 
 fn main() {
     let args: Vec<String> = std::env::args().collect();
@@ -34,6 +35,7 @@ fn main() {
         "prefix" => rx_prefix::run(&args[2], &args[3], &opts),
         "dangling" => rx_dangling::run(&args[2], &args[3], &opts),
         "content" => rx_content::run(&args[2], &args[3], &opts),
+        "derive" => rx_derive::run(&args[2], &args[3], &opts),
         "cache" => rx_cache::run(&args[2], &args[3], &opts),
         "widths" => rx_font::run_widths(&args[2], &args[3], &opts),
         "cmap" => rx_font::run_cmap(&args[2], &args[3], &opts),
